@@ -118,6 +118,15 @@ package native
 //@   ensures forall j int, k int :: (0 <= j && j < k && k < m.Sp) ==> m.Vt[j] < m.Vt[k]
 //@   ensures forall r text :: { corrSpec(subtxt(*s, old(*p), len(*s) - old(*p)), r) } corrSpec(subtxt(*s, old(*p), len(*s) - old(*p)), r) == tcat(fixSeg(*s, old(*p), *p, m.Vt, 0, m.Sp, r), corrSpec(subtxt(*s, *p, len(*s) - *p), r))
 
+// unquote(sp, nb, dp, &ep, flags): decodes the nb bytes of a string-literal body into dp;
+// the output is never longer than the input (every escape is at least as long as what
+// it stands for), so the caller must provide nb bytes of room; negative result = error.
+//@ func Unquote assumed "native unquote (pre-assembled machine code)"
+//@   requires nb >= 0 && (nb == 0 || (ptrlo(s) <= ptrindex(s) && ptrindex(s) + nb <= ptrhi(s)))
+//@   requires nb == 0 || (ptrlo(dp) <= ptrindex(dp) && ptrindex(dp) + nb <= ptrhi(dp))
+//@   modifies *ep, rawmem(dp)
+//@   ensures result <= nb && -64 <= result
+
 // ---- dispatch wiring (C13): each slot of the function-pointer table is filled
 // with the same-named routine of ONE instruction-set package; both variants fill
 // the same set of slots; init selects by CPU feature.
